@@ -20,7 +20,7 @@ func init() {
 			mk := func(permissive bool) *vpCfg {
 				cfg := &vpCfg{Store: vpS(cm, "store"), Preflight: vpB(cm, "preflight"), ForceJSON: vpB(cm, "forceJSON"),
 					SkipProviderButton: vpB(cm, "spb"), Bearer: vpB(cm, "bearer"), Htpasswd: vpB(cm, "htpasswd"), HtpasswdGroups: []string{"g1"},
-					SkipAuthRoutes: []string{"^/open"}, TrustedIPs: []string{"198.51.100.0/24"}, APIRoutes: []string{"^/api"},
+					SkipAuthRoutes: []string{"^/open", "GET=^/getonly"}, TrustedIPs: []string{"198.51.100.0/24"}, APIRoutes: []string{"^/api"},
 					EmailDomains: []string{"example.com"}, AllowedGroups: []string{"g1"}}
 				if cfg.Bearer {
 					// two extra JWT issuers next to the provider: one with a discovery document, one with keys only (listed first)
@@ -182,6 +182,9 @@ func init() {
 				path := "/private/x"
 				if vpS(in, "bypass") == "route" {
 					path = "/open/x"
+				}
+				if vpS(in, "bypass") == "route_get" {
+					path = "/getonly/x"
 				}
 				if vpS(in, "errmode") == "api_route" {
 					path = "/api/x"
